@@ -192,6 +192,39 @@ def _sparse_case(draw, hi):
     }
 
 
+def check_degree_twins(case: dict):
+    """two mazes of one size with the same number of connections at every cell (so that every per-cell or per-token *count* agrees) but
+    different connections, converted and parsed one after the other in one process - A, B, A again"""
+    check(case["a"])
+    r = check(case["b"])
+    check(case["a"])
+    return {"nt": True, "labels": ["degree-twins"] + list((r or {}).get("labels", ()))[:3]}
+
+
+@st.composite
+def _degree_twins(draw, hi):
+    base = draw(_case(hi))
+    g = base["g"]
+    n = g["r"]
+    bits = M.g_bits(g)
+    i, j = draw(st.integers(0, n - 2)), draw(st.integers(0, n - 2))
+    top, bottom = M.edge_bit(n, n, (i, j), (i, j + 1)), M.edge_bit(n, n, (i + 1, j), (i + 1, j + 1))
+    left, right = M.edge_bit(n, n, (i, j), (i + 1, j)), M.edge_bit(n, n, (i, j + 1), (i + 1, j + 1))
+    ba, bb = list(bits), list(bits)
+    ba[top] = ba[bottom] = 1
+    ba[left] = ba[right] = 0
+    bb[top] = bb[bottom] = 0
+    bb[left] = bb[right] = 1
+    out = {}
+    for key, b in (("a", ba), ("b", bb)):
+        gg = M.g_make(n, n, b)
+        a = M.adj(gg)
+        s = tuple(base["sol"][0])
+        far = sorted(M.bfs(a, s).items(), key=lambda kv: (-kv[1], kv[0]))[0][0]
+        out[key] = dict(base, g=gg, sol=[list(q) for q in M.shortest_path(a, s, far)])
+    return out
+
+
 # (grids beyond the quantified 2..20 are deliberately not part of this check: the modular vocabulary ends at 50x50, so a library
 #  that refuses larger grids there would still satisfy the property; the int8 edge arithmetic on large grids is C13's business)
 @st.composite
@@ -227,5 +260,6 @@ def subs(tier: str):
     return [
         Sub("mazes", check, "hypothesis", strategy=lambda: _case(20), examples=120 if q else 4000),
         Sub("sparse-mazes", check, "hypothesis", strategy=lambda: _sparse_case(20), examples=80 if q else 2000),
+        Sub("degree-twins", check_degree_twins, "hypothesis", strategy=lambda: _degree_twins(8 if q else 14), examples=20 if q else 500),
         Sub("datasets", check_dataset, "hypothesis", strategy=lambda: _dataset(20), examples=50 if q else 1000),
     ]
